@@ -173,7 +173,7 @@ func TestC13(t *testing.T) {
 		return
 	}
 
-	r.Rapid(t, "schedules", vf.N(400, 40000), func(t *rapid.T) {
+	r.Rapid(t, "schedules", vf.N(400, 160000), func(t *rapid.T) {
 		typ := uint8(rapid.IntRange(1, 15).Draw(t, "type"))
 		if rapid.IntRange(0, 3).Draw(t, "connect") == 0 {
 			typ = model.CONNECT
